@@ -3,13 +3,13 @@ module verif/mc
 go 1.23
 
 require (
+	github.com/antchfx/xpath v1.1.11
 	github.com/jf-tech/omniparser v0.0.0
 	github.com/tkuchiki/go-timezone v0.2.0
 	golang.org/x/text v0.3.8
 )
 
 require (
-	github.com/antchfx/xpath v1.1.11 // indirect
 	github.com/dlclark/regexp2 v1.7.0 // indirect
 	github.com/dop251/goja v0.0.0-20230812105242-81d76064690d // indirect
 	github.com/go-sourcemap/sourcemap v2.1.3+incompatible // indirect
